@@ -56,6 +56,15 @@ func decodeOnly(e int, in []byte) error {
 	case 13:
 		ev := &psa.Evidence{}
 		return ev.UnmarshalCOSE(in)
+	case 14: // the validating decoders are decoding entry points as well
+		_, err := psa.DecodeAndValidateClaimsFromCBOR(in)
+		return err
+	case 15:
+		_, err := psa.DecodeAndValidateClaimsFromJSON(in)
+		return err
+	case 16:
+		_, err := psa.DecodeAndValidateEvidenceFromCOSE(in)
+		return err
 	}
 	return fmt.Errorf("no such entry")
 }
